@@ -38,7 +38,9 @@ impl ReferenceIdRequest {
     }
 
     pub fn serialize(&self, mut writer: impl NonBlockingWrite) -> std::io::Result<()> {
-        let payload_len = self.payload_len;
+        // The decoder accepts any payload length that has room for the offset, so
+        // encode exactly that many bytes (offset followed by zeros) plus padding.
+        let payload_len = self.payload_len.max(2);
         let ef_len: u16 = payload_len + 4;
 
         writer.write_all(
@@ -48,13 +50,13 @@ impl ReferenceIdRequest {
         )?;
         writer.write_all(&ef_len.to_be_bytes())?;
         writer.write_all(&self.offset.to_be_bytes())?;
-        writer.write_all(&[0; 2])?;
 
-        let words = payload_len / 4;
-        assert_eq!(payload_len % 4, 0);
+        for _ in 2..payload_len {
+            writer.write_all(&[0])?;
+        }
 
-        for _ in 1..words {
-            writer.write_all(&[0; 4])?;
+        if !ef_len.is_multiple_of(4) {
+            writer.write_all(&[0u8; 3][..(4 - (ef_len % 4)) as usize])?;
         }
 
         Ok(())
